@@ -161,6 +161,19 @@ func runTTLInBubble(cs *Case) (w *World) {
 					w.sim.Yield(ptTxnEdge)
 				}
 			})
+		case "failsnap":
+			w.sim.GoRole("snapshot", fmt.Sprintf("failsnap%d", ti), func(t *Thread) {
+				for k := 0; k < tp.Arg; k++ {
+					w.sim.Yield(ptTxnEdge)
+				}
+				f := NewSimFile()
+				f.Plan = WritePlan{FailAtCall: 1, FailAtByte: -1}
+				err := w.primary.Snapshot(f)
+				w.stats.fault("snapshot-write-fault-beside-cleanup")
+				if err == nil && f.Fired > 0 {
+					w.fail(violation("snapshot-fault/unreported", "the destination writer failed but Snapshot returned nil"))
+				}
+			})
 		case "clock":
 			advances := tp.Arg
 			rng := NewRng(cs.SchedSeed, uint64(ti), 17)
